@@ -10,12 +10,13 @@ Local Open Scope string_scope.
 Local Open Scope nat_scope.
 
 (* the shape of ModelProcessor.transpile the proofs are about (read off the source by the translator) *)
-Lemma passes_fixed : transpile_passes = [PExpand; PTopology; PResolve]. Proof. reflexivity. Qed.
+Lemma passes_fixed : transpile_passes = [PWidth; PExpand; PTopology; PResolve]. Proof. reflexivity. Qed.
 Lemma threshold_two : expand_threshold = 2. Proof. reflexivity. Qed.
 
-Lemma transpile_unfold d N c :
-  transpile d N c = rbind (rbind (run_pass d N PExpand c) (run_pass d N PTopology)) (run_pass d N PResolve).
-Proof. unfold transpile, transpile_gen. rewrite passes_fixed. reflexivity. Qed.
+Lemma transpile_unfold d Ndev M c :
+  transpile_on d Ndev M c =
+  rbind (rbind (rbind (run_pass d Ndev M PWidth c) (run_pass d Ndev M PExpand)) (run_pass d Ndev M PTopology)) (run_pass d Ndev M PResolve).
+Proof. unfold transpile_on, transpile_gen. rewrite passes_fixed. reflexivity. Qed.
 
 Definition small_coupled (t : topo_kind) (N : nat) (g : mgate) : Prop := coupled_gate t N g = true.
 
@@ -184,8 +185,6 @@ Qed.
 End Passes.
 
 (* ---- the whole pipeline ------------------------------------------------------------------------------------------------- *)
-Definition dtk (d : device) : topo_kind := dtopo d.
-
 Lemma in_basis_native d lst g : dnative d = Some lst ->
   (forall n, mem n (c2q (cfg_of lst)) = true \/ mem n (crot (cfg_of lst)) = true -> mem n lst = true) ->
   in_basis (cfg_of lst) g = true -> native_gate d g = true.
@@ -198,75 +197,189 @@ Proof.
   - rewrite Hb. apply orb_true_r.
 Qed.
 
-(* what holds for every gate of a transpiled circuit *)
-Definition out_ok (d : device) (N : nat) (o : mgate) : Prop :=
-  native_gate d o = true /\ coupled_gate (dtopo d) N o = true /\ in_range N o = true /\ NoDup (qubits o) /\ kindshape o = true.
+(* ---- the device table: narrower circuits and refused gates ------------------------------------------------------------ *)
+Definition topo_eqb (a b : topo_kind) : bool :=
+  match a, b with TopoNone, TopoNone | TopoLinear, TopoLinear | TopoCircular, TopoCircular => true | _, _ => false end.
+Definition narrow_kind (d : device) : topo_kind := match dnarrow d with Some t => t | None => dtopo d end.
+(* - a processor without topology map has no special cases;
+   - a circuit narrower than the processor is routed as an open chain, or as usual when the hardware is not a ring
+     (on a ring the wrap-around pair of the NARROWER circuit is not a pair of the hardware);
+   - the gates the topology map refuses are none of the resolvable kinds, native two-qubit gates, rotations or markers *)
+Definition table_ok (d : device) : bool :=
+  match dtopo d with
+  | TopoNone => match dnarrow d with None => true | Some _ => false end && match dunrouted d with [] => true | _ => false end
+  | _ => true
+  end &&
+  (topo_eqb (narrow_kind d) TopoLinear || (topo_eqb (narrow_kind d) (dtopo d) && negb (topo_eqb (dtopo d) TopoCircular))) &&
+  forallb (fun n => negb (mem n (map fst kinds ++ basis_2q_valid ++ rot_names ++ ["GLOBALPHASE"; "IDLE"]))) (dunrouted d).
+Lemma tables_ok : forallb table_ok devices = true. Proof. vm_compute. reflexivity. Qed.
 
-Lemma coupled_gate_none_of t N g : coupled_gate t N g = true -> coupled_gate TopoNone N g = true.
+Lemma table_facts d : In d devices -> table_ok d = true.
+Proof. intros Hd. pose proof tables_ok as K. rewrite forallb_forall in K. exact (K d Hd). Qed.
+
+Lemma coupled_linear_any t M Ndev a b : M <= Ndev -> coupled TopoLinear M a b = true -> coupled t Ndev a b = true.
 Proof.
-  unfold coupled_gate. destruct (qubits g) as [|a [|b [|? ?]]]; auto. unfold coupled.
-  intros H. apply andb_prop in H. destruct H as [H _]. rewrite H. reflexivity.
+  intros HM H. unfold coupled in *. apply andb_prop in H. destruct H as [H H4]. apply andb_prop in H. destruct H as [H H3].
+  apply andb_prop in H. destruct H as [H1 H2]. apply Nat.ltb_lt in H2. apply Nat.ltb_lt in H3. rewrite H1.
+  replace (a <? Ndev) with true by (symmetry; apply Nat.ltb_lt; lia).
+  replace (b <? Ndev) with true by (symmetry; apply Nat.ltb_lt; lia). cbn [andb].
+  destruct t; [reflexivity|exact H4|].
+  apply orb_prop in H4. apply orb_true_iff. destruct H4 as [E|E]; apply Nat.eqb_eq in E; [left|right]; apply Nat.eqb_eq;
+    rewrite Nat.mod_small; lia.
+Qed.
+Lemma coupled_none_wider M Ndev a b : M <= Ndev -> coupled TopoNone M a b = true -> coupled TopoNone Ndev a b = true.
+Proof.
+  intros HM H. unfold coupled in *. apply andb_prop in H. destruct H as [H _]. apply andb_prop in H. destruct H as [H H3].
+  apply andb_prop in H. destruct H as [H1 H2]. apply Nat.ltb_lt in H2. apply Nat.ltb_lt in H3. rewrite H1.
+  replace (a <? Ndev) with true by (symmetry; apply Nat.ltb_lt; lia).
+  replace (b <? Ndev) with true by (symmetry; apply Nat.ltb_lt; lia). reflexivity.
 Qed.
 
-Theorem transpile_structure (P : string -> Prop) d N c out : In d devices -> P "SWAP" ->
-  Forall wf_gate c -> Forall (fun g => P (gname g)) c -> Forall (fun g => in_range N g = true) c ->
-  transpile d N c = Ok out -> Forall (out_ok d N) out.
+(* what the circuit is routed on is sound for the hardware: a pair coupled in the routing topology on the circuit's width is
+   a pair the processor of Ndev >= M qubits couples *)
+Lemma route_kind_sound d Ndev M g : In d devices -> M <= Ndev ->
+  coupled_gate (route_kind d Ndev M) M g = true -> coupled_gate (dtopo d) Ndev g = true.
+Proof.
+  intros Hd HM H. pose proof (table_facts d Hd) as T. unfold table_ok in T.
+  apply andb_prop in T. destruct T as [T _]. apply andb_prop in T. destruct T as [_ T].
+  unfold coupled_gate in *. destruct (qubits g) as [|a [|b [|? ?]]]; try reflexivity; try discriminate.
+  unfold route_kind in H. destruct (Nat.ltb M Ndev) eqn:E.
+  - fold (narrow_kind d) in H. apply orb_prop in T. destruct T as [T|T].
+    + destruct (narrow_kind d); try discriminate. eapply coupled_linear_any; eauto.
+    + apply andb_prop in T. destruct T as [T1 T2]. destruct (narrow_kind d), (dtopo d); try discriminate.
+      * eapply coupled_none_wider; eauto.
+      * eapply coupled_linear_any; eauto.
+  - apply Nat.ltb_ge in E. assert (M = Ndev) by lia. subst. exact H.
+Qed.
+
+Section Pipeline.
+Variable P : string -> Prop.
+Hypothesis HP : P "SWAP".
+Variable d : device.
+Hypothesis Hd : In d devices.
+Variable lst : list string.
+Variable keep : string -> bool.
+Hypothesis El : dnative d = Some lst.
+Hypothesis Hp : parse_basis (BList lst) = Ok (cfg_of lst, keep).
+Hypothesis Hv : valid_cfg (cfg_of lst) = true.
+Hypothesis Hdv : In (cfg_of lst) dev_cfgs.
+Hypothesis Hal : In (cfg_of lst) all_cfgs.
+Let cf := cfg_of lst.
+
+Lemma cavity_coupled N g : midok P cf N g -> coupled_gate TopoNone N g = true.
+Proof.
+  (* any pair couples through the cavity: distinct qubits inside the register *)
+  intros [Hrg [Hnd [Hk _]]]. apply in_range_iff in Hrg.
+  assert (Hlen : List.length (qubits g) <= 2) by (apply kindshape_len; exact Hk).
+  unfold coupled_gate. destruct (qubits g) as [|a [|b [|? ?]]]; try reflexivity; [|cbn [List.length] in Hlen; lia].
+  inversion Hnd as [|? ? Hn _]; subst. inversion Hrg as [|? ? Ha Hr']; subst. inversion Hr' as [|? ? Hb _]; subst.
+  unfold coupled. replace (a =? b) with false by (symmetry; apply Nat.eqb_neq; intros ->; apply Hn; left; reflexivity).
+  replace (a <? N) with true by (symmetry; apply Nat.ltb_lt; exact Ha).
+  replace (b <? N) with true by (symmetry; apply Nat.ltb_lt; exact Hb). reflexivity.
+Qed.
+
+(* no gate between the passes is one of the gates the topology map refuses *)
+Lemma midok_not_unrouted N g : midok P cf N g -> mem (gname g) (dunrouted d) = false.
+Proof.
+  intros [_ [_ [_ Hor]]]. destruct (mem (gname g) (dunrouted d)) eqn:E; [|reflexivity]. exfalso.
+  pose proof (table_facts d Hd) as T. unfold table_ok in T. apply andb_prop in T. destruct T as [_ T].
+  rewrite forallb_forall in T. apply mem_in in E. specialize (T _ E). apply negb_true_iff in T.
+  assert (X : mem (gname g) (map fst kinds ++ basis_2q_valid ++ rot_names ++ ["GLOBALPHASE"; "IDLE"]) = true).
+  { apply mem_in. destruct Hor as [[Hw _]|Hb].
+    - destruct Hw as [nc [nt [np [Hk _]]]]. apply in_or_app. left. apply in_map_iff. exists (gname g, (nc, nt, np)). auto.
+    - apply in_or_app. right. unfold in_basis in Hb.
+      apply orb_prop in Hb. destruct Hb as [Hb|Hb]; [apply orb_prop in Hb; destruct Hb as [Hb|Hb]; [apply orb_prop in Hb; destruct Hb as [Hb|Hb]|]|].
+      + apply in_or_app. left. apply mem_in in Hb. fold cf in Hb.
+        assert (Hc : c2q (cfg_of lst) = filter (fun n => mem n (filter (fun g0 => mem g0 basis_2q_valid) lst)) basis_2q_valid).
+        { clear -Hp. unfold cfg_of. cbn [parse_basis parse_basis_gen] in *. unfold parse_basis, parse_basis_gen in *.
+          destruct (Nat.eqb _ 1); [discriminate|]. reflexivity. }
+        unfold cf in Hb. rewrite Hc in Hb. apply filter_In in Hb. tauto.
+      + apply in_or_app. right. apply in_or_app. left. apply mem_in in Hb. fold cf in Hb.
+        assert (Hc : exists r1 r2, crot (cfg_of lst) = filter (fun n => mem n r1) rot_names /\ r2 = r1).
+        { clear -Hp. unfold cfg_of, parse_basis, parse_basis_gen in *.
+          destruct (Nat.eqb _ 1); [discriminate|]. eexists. eexists. split; reflexivity. }
+        destruct Hc as [r1 [_ [Hc _]]]. unfold cf in Hb. rewrite Hc in Hb. apply filter_In in Hb. tauto.
+      + apply in_or_app. right. apply in_or_app. right. left. symmetry. apply String.eqb_eq. exact Hb.
+      + apply in_or_app. right. apply in_or_app. right. right. left. symmetry. apply String.eqb_eq. exact Hb. }
+  rewrite X in T. discriminate.
+Qed.
+
+Lemma unrouted_pass N pre : Forall (midok P cf N) pre -> unrouted_ok d pre = true.
+Proof.
+  intros H. unfold unrouted_ok. apply forallb_forall. intros g Hg. rewrite Forall_forall in H.
+  rewrite (midok_not_unrouted N g (H g Hg)). reflexivity.
+Qed.
+
+(* the topology statement of transpile: never fails on such a circuit, keeps the invariant, and leaves every gate on two
+   or more qubits on a pair coupled in the topology the circuit was routed on *)
+Lemma topology_step Ndev M pre : Forall (midok P cf M) pre ->
+  exists mid, run_pass d Ndev M PTopology pre = Ok mid /\
+              Forall (fun x => midok P cf M x /\ coupled_gate (route_kind d Ndev M) M x = true) mid.
+Proof.
+  intros Hpre. pose proof (table_facts d Hd) as T. unfold table_ok in T.
+  apply andb_prop in T. destruct T as [T _]. apply andb_prop in T. destruct T as [T0 _].
+  assert (Hcav : forall t, t = TopoNone -> Forall (fun x => midok P cf M x /\ coupled_gate t M x = true) pre).
+  { intros t ->. eapply Forall_impl; [|exact Hpre]. intros g Hg. split; [exact Hg|exact (cavity_coupled M g Hg)]. }
+  unfold run_pass. destruct (dtopo d) eqn:Et.
+  - exists pre. split; [reflexivity|]. apply Hcav. unfold route_kind. rewrite Et.
+    apply andb_prop in T0. destruct T0 as [T0 _]. destruct (dnarrow d); [discriminate|]. destruct (Nat.ltb M Ndev); reflexivity.
+  - rewrite (unrouted_pass M pre Hpre). destruct (route_kind d Ndev M) eqn:Ek.
+    + exists pre. split; [reflexivity|]. apply Hcav. reflexivity.
+    + destruct (topo_succeeds P lst Route.Linear M pre Hpre) as [mid E2]. exists mid. split; [exact E2|].
+      exact (topo_ok P lst HP Route.Linear M pre mid Hpre E2).
+    + destruct (topo_succeeds P lst Route.Circular M pre Hpre) as [mid E2]. exists mid. split; [exact E2|].
+      exact (topo_ok P lst HP Route.Circular M pre mid Hpre E2).
+  - rewrite (unrouted_pass M pre Hpre). destruct (route_kind d Ndev M) eqn:Ek.
+    + exists pre. split; [reflexivity|]. apply Hcav. reflexivity.
+    + destruct (topo_succeeds P lst Route.Linear M pre Hpre) as [mid E2]. exists mid. split; [exact E2|].
+      exact (topo_ok P lst HP Route.Linear M pre mid Hpre E2).
+    + destruct (topo_succeeds P lst Route.Circular M pre Hpre) as [mid E2]. exists mid. split; [exact E2|].
+      exact (topo_ok P lst HP Route.Circular M pre mid Hpre E2).
+Qed.
+End Pipeline.
+
+Lemma pass_width d Ndev M c : run_pass d Ndev M PWidth c = if Nat.ltb Ndev M then Error else Ok c.
+Proof. reflexivity. Qed.
+Lemma pass_expand d Ndev M lst : dnative d = Some lst -> forall c, run_pass d Ndev M PExpand c = expand (BList lst) c.
+Proof. intros El c. unfold run_pass. rewrite El. reflexivity. Qed.
+Lemma pass_resolve d Ndev M lst : dnative d = Some lst -> forall c, run_pass d Ndev M PResolve c = resolve (BList lst) c.
+Proof. intros El c. unfold run_pass. rewrite El. reflexivity. Qed.
+
+(* what holds for every gate of a transpiled circuit: native, coupled on the hardware of Ndev qubits, inside the circuit *)
+Definition out_ok (d : device) (Ndev M : nat) (o : mgate) : Prop :=
+  native_gate d o = true /\ coupled_gate (dtopo d) Ndev o = true /\ in_range M o = true /\ NoDup (qubits o) /\ kindshape o = true.
+
+Theorem transpile_structure (P : string -> Prop) d Ndev M c out : In d devices -> P "SWAP" ->
+  Forall wf_gate c -> Forall (fun g => P (gname g)) c -> Forall (fun g => in_range M g = true) c ->
+  transpile_on d Ndev M c = Ok out -> M <= Ndev /\ Forall (out_ok d Ndev M) out.
 Proof.
   intros Hd HP Hw HPc Hr H. destruct (dev_facts d Hd) as [lst [keep [El [Hp [Hv [Hdv [Hal Hm]]]]]]].
-  rewrite transpile_unfold in H. unfold run_pass in H. rewrite El in H.
+  rewrite transpile_unfold, pass_width in H.
+  destruct (Nat.ltb Ndev M) eqn:EW; [discriminate|]. apply Nat.ltb_ge in EW. split; [exact EW|].
+  cbn [rbind] in H. rewrite (pass_expand d Ndev M lst El) in H.
   destruct (expand (BList lst) c) as [pre|] eqn:E1; [|discriminate]. cbn [rbind] in H.
-  pose proof (expand_ok P lst keep Hp Hv Hdv Hal N c pre Hw HPc Hr E1) as Hpre.
-  assert (Hmid : exists mid, (match dtopo d with TopoNone => Ok pre | TopoLinear => topo_pass Route.Linear N pre
-                               | TopoCircular => topo_pass Route.Circular N pre end) = Ok mid /\
-                 Forall (fun x => midok P (cfg_of lst) N x /\ coupled_gate (dtopo d) N x = true) mid).
-  { destruct (dtopo d) eqn:Et.
-    - exists pre. split; [reflexivity|]. eapply Forall_impl; [|exact Hpre]. intros g Hg. split; [exact Hg|].
-      (* any pair couples through the cavity: distinct qubits inside the register *)
-      destruct Hg as [Hrg [Hnd [Hk _]]]. apply in_range_iff in Hrg.
-      assert (Hlen : List.length (qubits g) <= 2) by (apply kindshape_len; exact Hk).
-      unfold coupled_gate. destruct (qubits g) as [|a [|b [|? ?]]]; try reflexivity; [|cbn [List.length] in Hlen; lia].
-      inversion Hnd as [|? ? Hn _]; subst. inversion Hrg as [|? ? Ha Hr']; subst. inversion Hr' as [|? ? Hb _]; subst.
-      unfold coupled. replace (a =? b) with false by (symmetry; apply Nat.eqb_neq; intros ->; apply Hn; left; reflexivity).
-      replace (a <? N) with true by (symmetry; apply Nat.ltb_lt; exact Ha).
-      replace (b <? N) with true by (symmetry; apply Nat.ltb_lt; exact Hb). reflexivity.
-    - destruct (topo_pass Route.Linear N pre) as [mid|] eqn:E2.
-      + exists mid. split; [reflexivity|]. exact (topo_ok P lst HP Route.Linear N pre mid Hpre E2).
-      + cbn [rbind] in H. discriminate.
-    - destruct (topo_pass Route.Circular N pre) as [mid|] eqn:E2.
-      + exists mid. split; [reflexivity|]. exact (topo_ok P lst HP Route.Circular N pre mid Hpre E2).
-      + cbn [rbind] in H. discriminate. }
-  destruct Hmid as [mid [E2 Hmid]]. rewrite E2 in H. cbn [rbind] in H.
-  pose proof (final_ok P lst keep Hp Hv Hdv Hal (dtopo d) N mid out Hmid H) as Ho.
-  eapply Forall_impl; [|exact Ho]. intros o [H1 H2]. split; [|exact H2].
-  eapply in_basis_native; eauto.
+  pose proof (expand_ok P lst keep Hp Hv Hdv Hal M c pre Hw HPc Hr E1) as Hpre.
+  destruct (topology_step P HP d Hd lst keep Hp Ndev M pre Hpre) as [mid [E2 Hmid]].
+  rewrite E2 in H. cbn [rbind] in H. rewrite (pass_resolve d Ndev M lst El) in H.
+  pose proof (final_ok P lst keep Hp Hv Hdv Hal (route_kind d Ndev M) M mid out Hmid H) as Ho.
+  eapply Forall_impl; [|exact Ho]. intros o [H1 [H2 H3]]. split; [eapply in_basis_native; eauto|].
+  split; [exact (route_kind_sound d Ndev M o Hd EW H2)|exact H3].
 Qed.
 
-Theorem transpile_succeeds_proof d N c : In d devices ->
-  Forall wf_gate c -> Forall (fun g => in_range N g = true) c ->
+Theorem transpile_succeeds_proof d Ndev M c : In d devices -> M <= Ndev ->
+  Forall wf_gate c -> Forall (fun g => in_range M g = true) c ->
   (forall lst, dnative d = Some lst -> Forall (fun g => sq_name (cfg_of lst) (gname g)) c) ->
-  exists out, transpile d N c = Ok out.
+  exists out, transpile_on d Ndev M c = Ok out.
 Proof.
-  intros Hd Hw Hr Hsq. destruct (dev_facts d Hd) as [lst [keep [El [Hp [Hv [Hdv [Hal Hm]]]]]]].
+  intros Hd HM Hw Hr Hsq. destruct (dev_facts d Hd) as [lst [keep [El [Hp [Hv [Hdv [Hal Hm]]]]]]].
   specialize (Hsq lst El). set (P := sq_name (cfg_of lst)).
   assert (HP : P "SWAP") by (intros [E|E]; discriminate).
   assert (HPsq : forall n, P n -> sq_name (cfg_of lst) n) by (intros n H; exact H).
-  rewrite transpile_unfold. unfold run_pass. rewrite El.
+  rewrite transpile_unfold, pass_width.
+  replace (Nat.ltb Ndev M) with false by (symmetry; apply Nat.ltb_ge; exact HM). cbn [rbind]. rewrite (pass_expand d Ndev M lst El).
   destruct (expand_succeeds P lst keep Hp Hv Hal c HPsq Hw Hsq) as [pre E1]. rewrite E1. cbn [rbind].
-  pose proof (expand_ok P lst keep Hp Hv Hdv Hal N c pre Hw Hsq Hr E1) as Hpre.
-  destruct (dtopo d) eqn:Et.
-  - assert (Hc : Forall (fun x => midok P (cfg_of lst) N x /\ coupled_gate TopoNone N x = true) pre).
-    { (* reuse the argument of transpile_structure through a trivial topology: coupled_gate is not needed for success *)
-      eapply Forall_impl; [|exact Hpre]. intros g Hg. split; [exact Hg|].
-      destruct Hg as [Hrg [Hnd [Hk _]]]. apply in_range_iff in Hrg.
-      assert (Hlen : List.length (qubits g) <= 2) by (apply kindshape_len; exact Hk).
-      unfold coupled_gate. destruct (qubits g) as [|a [|b [|? ?]]]; try reflexivity; [|cbn [List.length] in Hlen; lia].
-      inversion Hnd as [|? ? Hn _]; subst. inversion Hrg as [|? ? Ha Hr']; subst. inversion Hr' as [|? ? Hb _]; subst.
-      unfold coupled. replace (a =? b) with false by (symmetry; apply Nat.eqb_neq; intros ->; apply Hn; left; reflexivity).
-      replace (a <? N) with true by (symmetry; apply Nat.ltb_lt; exact Ha).
-      replace (b <? N) with true by (symmetry; apply Nat.ltb_lt; exact Hb). reflexivity. }
-    exact (final_succeeds P lst keep Hp Hv Hdv Hal TopoNone N pre HPsq Hc).
-  - destruct (topo_succeeds P lst Route.Linear N pre Hpre) as [mid E2]. rewrite E2. cbn [rbind].
-    exact (final_succeeds P lst keep Hp Hv Hdv Hal _ N mid HPsq (topo_ok P lst HP Route.Linear N pre mid Hpre E2)).
-  - destruct (topo_succeeds P lst Route.Circular N pre Hpre) as [mid E2]. rewrite E2. cbn [rbind].
-    exact (final_succeeds P lst keep Hp Hv Hdv Hal _ N mid HPsq (topo_ok P lst HP Route.Circular N pre mid Hpre E2)).
+  pose proof (expand_ok P lst keep Hp Hv Hdv Hal M c pre Hw Hsq Hr E1) as Hpre.
+  destruct (topology_step P HP d Hd lst keep Hp Ndev M pre Hpre) as [mid [E2 Hmid]].
+  rewrite E2. cbn [rbind]. rewrite (pass_resolve d Ndev M lst El).
+  exact (final_succeeds P lst keep Hp Hv Hdv Hal _ M mid HPsq Hmid).
 Qed.
